@@ -21,6 +21,8 @@ pub struct GInfo {
     pub sets: RefSets,
     pub reduced: bool,
     pub productive: Vec<bool>,
+    /// Earley recogniser per entry point (0 = start rule, 1 + i = part i)
+    pub earley: Vec<crate::earley::Earley>,
 }
 
 impl GInfo {
@@ -28,7 +30,11 @@ impl GInfo {
         let flat = Flat::new(g);
         let bnf = refan::build_bnf(g, &flat);
         let sets = refan::ref_sets(&bnf);
-        GInfo { reduced: refan::is_reduced(g), productive: refan::productive_rules(g), flat, bnf, sets }
+        let mut earley = vec![crate::earley::Earley::new(&bnf, &sets, bnf.body_nt[g.start])];
+        for p in &g.parts {
+            earley.push(crate::earley::Earley::new(&bnf, &sets, bnf.body_nt[*p]));
+        }
+        GInfo { reduced: refan::is_reduced(g), productive: refan::productive_rules(g), flat, bnf, sets, earley }
     }
 }
 
